@@ -7,7 +7,9 @@ import "verifharness/internal/drv"
 //   - static query parameters in the base path / path pattern named like a query API key (or like access_token), with and
 //     without a credential writer of that name: the written credential must win, a lone static one is the credential carried;
 //   - Runtime.Debug on (the request is dumped before it is sent) with every kind of header credential, really sent;
-//   - sessions: the application REPLACES Runtime.DefaultAuthentication / Debug / the base path between requests.
+//   - sessions: the application REPLACES Runtime.DefaultAuthentication / Debug / the base path between requests;
+//   - the SAME ClientOperation value submitted again: after the default was rotated, removed or set, and through a second
+//     Runtime with another default (the credential is the sending transport's, at the time it sends).
 func genExtra(thorough bool, apool []Auth, emit func(Step), emitSession func(...Step)) {
 	// authenticators for the query keys used below
 	var qauths []Auth
@@ -102,6 +104,40 @@ func genExtra(thorough bool, apool []Auth, emit func(Step), emitSession func(...
 			emitSession(mk(reqs[0], d1, "direct", false), mk(reqs[1], d2, "server", false), mk(reqs[0], d2, "direct", false), mk(reqs[0], d1, "server", false))
 		}
 	}
+	// (vii) the caller keeps ONE ClientOperation value and submits it again: after the default was replaced (rotated, removed,
+	// set later), through the other Runtime (other default, or none), and back
+	mkx := func(r Step, def []Writer, tr string, rt, opref int) Step {
+		r.Def, r.Transport, r.Rt, r.OpRef, r.Auths = def, tr, rt, opref, apool
+		return r
+	}
+	for i, d1 := range defaults {
+		for j, d2 := range defaults {
+			for ri, r := range reqs {
+				if i == j && ri > 0 {
+					continue
+				}
+				if ri >= 2 && !thorough && (i+j+ri)%3 != 0 {
+					continue
+				}
+				for ti, trs := range [][2]string{{"server", "server"}, {"direct", "direct"}, {"direct", "server"}} {
+					if ti > 0 && !thorough && (i+j+ri+ti)%2 == 0 {
+						continue
+					}
+					// one Runtime, the default replaced between the two submissions
+					emitSession(mkx(r, d1, trs[0], 1, 1), mkx(r, d2, trs[1], 1, 1))
+					// two Runtimes with their own defaults, the value goes A, B, A
+					emitSession(mkx(r, d1, trs[0], 1, 1), mkx(r, d2, trs[1], 2, 1), mkx(r, d1, trs[0], 1, 1))
+				}
+			}
+		}
+	}
+	// two values kept by the caller, interleaved with fresh ones, over both Runtimes
+	for i := 0; i+2 < len(defaults); i++ {
+		d1, d2, d3 := defaults[i], defaults[i+1], defaults[i+2]
+		emitSession(mkx(reqs[0], d1, "server", 1, 1), mkx(reqs[1], d2, "direct", 2, 2), mkx(reqs[0], d3, "direct", 1, 0), mkx(reqs[0], d2, "server", 2, 1),
+			mkx(reqs[1], d3, "server", 1, 2), mkx(reqs[0], d3, "server", 1, 1), mkx(reqs[0], nil, "direct", 2, 1))
+	}
+
 	// Debug switched on and off between requests that carry header credentials; base path replaced
 	for _, op := range hdrOps[:4] {
 		for _, def := range hdrDefs {
@@ -124,9 +160,19 @@ func randomSession(c *drv.Ctx) []Step {
 	var steps []Step
 	for i := 0; i < n; i++ {
 		st := randomCase(c)
-		if i > 0 && r.Intn(3) == 0 { // same request, another configuration
+		st.Rt = 1 + r.Intn(2)
+		switch {
+		case i > 0 && r.Intn(3) == 0: // same request with a fresh operation value, another configuration
 			st = steps[i-1]
-			st.Def = randomCase(c).Def
+			st.Def, st.OpRef, st.Rt = randomCase(c).Def, 0, 1+r.Intn(2)
+		case i > 0 && r.Intn(3) == 0: // the caller submits an operation value again: other configuration, maybe the other Runtime
+			k := r.Intn(i)
+			if steps[k].OpRef == 0 {
+				steps[k].OpRef = k + 1
+			}
+			cfg := st
+			st = steps[k]
+			st.Def, st.Debug, st.BaseStatic, st.Transport, st.Rt = cfg.Def, cfg.Debug, cfg.BaseStatic, cfg.Transport, 1+r.Intn(2)
 		}
 		steps = append(steps, st)
 	}
